@@ -139,7 +139,7 @@ pub fn run(ctx: &mut Ctx) {
     ctx.floor("entry.parse_le", 65536 * 4);
     ctx.floor("entry.parse_be", 65536 * 4);
     ctx.floor("entry.parse", 65536 * 4);
-    ctx.floor("cas.cross", 65536 * 12 - 4096);
+    ctx.floor("cas.cross", 65536 * 14 - 4096);
 
     // ------------------------------------------------ DH
     let n = ctx.tier.pick(16000, 160000);
@@ -517,7 +517,7 @@ pub fn run(ctx: &mut Ctx) {
         let mut rng = Rng::new(idx ^ 0xCA5);
         for s in 0..=255u8 {
             let h = idx as u8;
-            for (dl, tail) in [(0usize, 0usize), (3, 0), (3, 1), (511, 0), (512, 0), (513, 0), (515, 1), (600, 0), (600, 2), (1024, 0), (70, 0), (65535, 0), (4242, 0)] {
+            for (dl, tail) in [(0usize, 0usize), (3, 0), (3, 1), (511, 0), (512, 0), (513, 0), (515, 1), (600, 0), (600, 2), (1024, 0), (70, 0), (65535, 0), (4242, 0), (4343, 0), (4343, 1)] {
             if dl == 65535 && s % 16 != 0 {
                 continue;
             }
@@ -533,7 +533,9 @@ pub fn run(ctx: &mut Ctx) {
             } else {
                 dl
             };
-            let sg = ASig { alg: Some((h, s)), data: if coincidence { vec![0x5a; dl] } else { rng.bytes(dl) } };
+            // 4343: the signature is a real DER ECDSA-Sig-Value / Dss-Sig-Value (what a TLS 1.2 peer sends)
+            let der = dl == 4343;
+            let sg = ASig { alg: Some((h, s)), data: if coincidence { vec![0x5a; dl] } else if der { gen::ecdsa_sig_value(&mut rng) } else { rng.bytes(dl) } };
             let mut input = enc(|w| sg.enc(w));
             input.extend(rng.bytes(tail));
             // right flag
@@ -556,6 +558,7 @@ pub fn run(ctx: &mut Ctx) {
                 );
             }
             // legacy encoding read with the flag set: first two bytes are algorithms, next two a length
+            let dl = if der { 70 } else { dl };
             let old = ASig { alg: None, data: rng.bytes(dl.max(4)) };
             let mut input = enc(|w| old.enc(w));
             input.extend(rng.bytes(tail));
